@@ -953,7 +953,10 @@ class Message(ABC):
             value = self.__raw_get(name)
             if value is not PLACEHOLDER:
                 kwargs[name] = deepcopy(value)
-        return self.__class__(**kwargs)  # type: ignore
+        copied = self.__class__(**kwargs)  # type: ignore
+        copied.__dict__["_unknown_fields"] = self._unknown_fields
+        copied.__dict__["_serialized_on_wire"] = self._serialized_on_wire
+        return copied
 
     def __copy__(self: T, _: Any = {}) -> T:
         kwargs = {}
@@ -961,7 +964,10 @@ class Message(ABC):
             value = self.__raw_get(name)
             if value is not PLACEHOLDER:
                 kwargs[name] = value
-        return self.__class__(**kwargs)  # type: ignore
+        copied = self.__class__(**kwargs)  # type: ignore
+        copied.__dict__["_unknown_fields"] = self._unknown_fields
+        copied.__dict__["_serialized_on_wire"] = self._serialized_on_wire
+        return copied
 
     @classproperty
     def _betterproto(cls: type[Self]) -> ProtoClassMetadata:  # type: ignore
